@@ -19,11 +19,11 @@ for patch in "$@"; do
   wt=/tmp/rfw/wt_$tag
   git -C /repo worktree remove --force $wt >/dev/null 2>&1
   git -C /repo worktree add --detach $wt HEAD >/dev/null 2>&1 || { echo "$tag: cannot make a worktree"; continue; }
-  (cd $wt && git apply --whitespace=nowarn "$patch") || { echo "$tag: does not apply"; git -C /repo worktree remove --force $wt; continue; }
+  (cd $wt && (git apply --whitespace=nowarn "$patch" 2>/dev/null || git apply -3 --whitespace=nowarn "$patch" >/dev/null 2>&1)) || { echo "$tag: does not apply"; git -C /repo worktree remove --force $wt; continue; }
   (cd $wt && timeout 900 /venv/bin/python -m pytest -q -p no:cacheprovider test >/tmp/rfw/pytest_$tag.log 2>&1); echo "$tag pytest rc=$? $(tail -1 /tmp/rfw/pytest_$tag.log)"
   for n in 01 02 03 04 05 06 07 08 09 10 11 12 13 14 15 16 17 18 19 20; do echo "$patch C$n $tag" >> $list; done
 done
-xargs -a $list -P $jobs -L 1 bash -c 'one "$0" "$1" "$2"' | grep -v 'rc=0 :: $'
+xargs -a $list -P $jobs -L 1 bash -c 'one "$0" "$1" "$2"' | grep --line-buffered -v "rc=0 :: $"
 for patch in "$@"; do
   tag=$(echo "$patch" | sed -e 's#^/tmp/rf/##' -e 's#/out/patch#_r#' -e 's#\.diff$##' -e 's#[^A-Za-z0-9_]#_#g')
   git -C /repo worktree remove --force /tmp/rfw/wt_$tag >/dev/null 2>&1
